@@ -115,7 +115,7 @@ const (
 // Parse parses an argument list. It returns the parsed options, the non-option
 // arguments, and any error.
 func Parse(args []string, specs []*OptionSpec, cfg Config) ([]*Option, []string, error) {
-	opts, nonOptArgs, opt, _ := parse(args, specs, cfg)
+	opts, nonOptArgs, opt, _, extraArg := parse(args, specs, cfg)
 	var err error
 	if opt != nil {
 		err = fmt.Errorf("missing argument for %s", optionPart(opt))
@@ -124,6 +124,9 @@ func Parse(args []string, specs []*OptionSpec, cfg Config) ([]*Option, []string,
 		if opt.Unknown {
 			err = errutil.Multi(err, fmt.Errorf("unknown option %s", optionPart(opt)))
 		}
+	}
+	for _, opt := range extraArg {
+		err = errutil.Multi(err, fmt.Errorf("option %s doesn't take an argument", optionPart(opt)))
 	}
 	return opts, nonOptArgs, err
 }
@@ -143,7 +146,7 @@ func Complete(args []string, specs []*OptionSpec, cfg Config) ([]*Option, []stri
 		// No last argument: the same context as an empty last argument.
 		return nil, nil, Context{Type: OptionOrArgument}
 	}
-	opts, nonOptArgs, opt, stopOpt := parse(args[:len(args)-1], specs, cfg)
+	opts, nonOptArgs, opt, stopOpt, _ := parse(args[:len(args)-1], specs, cfg)
 
 	arg := args[len(args)-1]
 	var ctx Context
@@ -161,7 +164,7 @@ func Complete(args []string, specs []*OptionSpec, cfg Config) ([]*Option, []stri
 		if !strings.ContainsRune(arg, '=') {
 			ctx = Context{Type: LongOption, Text: arg[2:]}
 		} else {
-			newopt, _ := parseLong(arg[2:], specs)
+			newopt, _, _ := parseLong(arg[2:], specs)
 			ctx = Context{Type: OptionArgument, Option: newopt}
 		}
 	case strings.HasPrefix(arg, "-"):
@@ -169,7 +172,7 @@ func Complete(args []string, specs []*OptionSpec, cfg Config) ([]*Option, []stri
 			if !strings.ContainsRune(arg, '=') {
 				ctx = Context{Type: LongOption, Text: arg[1:]}
 			} else {
-				newopt, _ := parseLong(arg[1:], specs)
+				newopt, _, _ := parseLong(arg[1:], specs)
 				ctx = Context{Type: OptionArgument, Option: newopt}
 			}
 		} else {
@@ -188,10 +191,14 @@ func Complete(args []string, specs []*OptionSpec, cfg Config) ([]*Option, []stri
 	return opts, nonOptArgs, ctx
 }
 
-func parse(args []string, spec []*OptionSpec, cfg Config) ([]*Option, []string, *Option, bool) {
+func parse(args []string, spec []*OptionSpec, cfg Config) ([]*Option, []string, *Option, bool, []*Option) {
 	var (
 		opts       []*Option
 		nonOptArgs []string
+		// Long options that take no argument but were written as --name=value
+		// (also with an empty value). As with getopt_long, they are not
+		// delivered as options; Parse reports them.
+		extraArg []*Option
 		// Non-nil only when the last argument was an option with required
 		// argument, but the argument has not been seen.
 		opt *Option
@@ -210,16 +217,20 @@ func parse(args []string, spec []*OptionSpec, cfg Config) ([]*Option, []string, 
 		case cfg.has(StopAfterDoubleDash) && arg == "--":
 			stopOpt = true
 		case strings.HasPrefix(arg, "--") && arg != "--":
-			newopt, needArg := parseLong(arg[2:], spec)
-			if needArg {
+			newopt, needArg, extra := parseLong(arg[2:], spec)
+			if extra {
+				extraArg = append(extraArg, newopt)
+			} else if needArg {
 				opt = newopt
 			} else {
 				opts = append(opts, newopt)
 			}
 		case strings.HasPrefix(arg, "-") && arg != "--" && arg != "-":
 			if cfg.has(LongOnly) {
-				newopt, needArg := parseLong(arg[1:], spec)
-				if needArg {
+				newopt, needArg, extra := parseLong(arg[1:], spec)
+				if extra {
+					extraArg = append(extraArg, newopt)
+				} else if needArg {
 					opt = newopt
 				} else {
 					opts = append(opts, newopt)
@@ -240,7 +251,7 @@ func parse(args []string, spec []*OptionSpec, cfg Config) ([]*Option, []string, 
 			}
 		}
 	}
-	return opts, nonOptArgs, opt, stopOpt
+	return opts, nonOptArgs, opt, stopOpt, extraArg
 }
 
 // Parses short options, without the leading dash. Returns the parsed options
@@ -284,9 +295,10 @@ func findShort(r rune, specs []*OptionSpec) *OptionSpec {
 	return nil
 }
 
-// Parses a long option, without the leading dashes. Returns the parsed option
-// and whether an argument is still to be seen.
-func parseLong(s string, specs []*OptionSpec) (*Option, bool) {
+// Parses a long option, without the leading dashes. Returns the parsed option,
+// whether an argument is still to be seen, and whether an argument was given
+// with "=" to an option that takes none.
+func parseLong(s string, specs []*OptionSpec) (*Option, bool, bool) {
 	eq := strings.IndexRune(s, '=')
 	for _, opt := range specs {
 		if opt.Long == "" {
@@ -294,17 +306,17 @@ func parseLong(s string, specs []*OptionSpec) (*Option, bool) {
 			continue
 		}
 		if s == opt.Long {
-			return &Option{Spec: opt, Long: true}, opt.Arity == RequiredArgument
+			return &Option{Spec: opt, Long: true}, opt.Arity == RequiredArgument, false
 		} else if eq != -1 && s[:eq] == opt.Long {
-			return &Option{Spec: opt, Long: true, Argument: s[eq+1:]}, false
+			return &Option{Spec: opt, Long: true, Argument: s[eq+1:]}, false, opt.Arity == NoArgument
 		}
 	}
 	// Unknown option, treat as taking an optional argument
 	if eq == -1 {
 		return &Option{
-			Spec: &OptionSpec{0, s, OptionalArgument}, Unknown: true, Long: true}, false
+			Spec: &OptionSpec{0, s, OptionalArgument}, Unknown: true, Long: true}, false, false
 	}
 	return &Option{
 		Spec: &OptionSpec{0, s[:eq], OptionalArgument}, Unknown: true,
-		Long: true, Argument: s[eq+1:]}, false
+		Long: true, Argument: s[eq+1:]}, false, false
 }
